@@ -249,7 +249,7 @@ class Gen:
         ctx.block()
 
 
-def task(prop, seed, size, cfgbins, impl=None):
+def make(seed, size, impl=None):
     ctx = core.Ctx(seed, prefix='f%d_' % (seed % 100000))
     g = Gen(ctx, impl)
     g.corners()
@@ -258,6 +258,11 @@ def task(prop, seed, size, cfgbins, impl=None):
     g.sqrt(max(8, size // 4))
     g.batch(max(4, size // 10))
     g.chains(max(4, size // 8))
+    return ctx
+
+
+def task(prop, seed, size, cfgbins, impl=None):
+    ctx = make(seed, size, impl=impl)
     return core.run_and_judge(prop, ctx, cfgbins, compare=False)
 
 
